@@ -89,7 +89,7 @@ C01Why(e) == IF ~Tiles(e) THEN "walking the decoder over the emitted bytes does 
 
 \* the probe values: around every field boundary, closed under masking (for every
 \* 2^k + d it also contains d, so a wrapped value meets the value it collides with)
-ProbeKs == {3, 4, 5, 7, 8, 11, 12, 15, 16, 20, 23, 24, 31, 32}
+ProbeKs == (1..17) \cup {20, 21, 23, 24, 26, 31, 32}
 P2(k) == WShl(WOne(8), k)
 ProbeSet == {WZero(8), WOne(8), WOnes(8), WFromNat(8, 2), WFromInt(8, -2)}
             \cup UNION {{WSub(P2(k), WOne(8)), P2(k), WAdd(P2(k), WOne(8)),
